@@ -296,6 +296,9 @@ func c19Generate(g *srcGen) string {
 			switch {
 			case d > 2 || g.r.Intn(3) == 0:
 				in.WriteString(texts[g.r.Intn(len(texts))])
+			case g.r.Intn(7) == 0:
+				// comments, also ones that span several lines (their text is data: no line of it is touched)
+				in.WriteString([]string{"<!-- c -->", "<!--\n  multi\n  line\n-->", "<!-- first\n        second -->", "<!---->", "<!-- {{ x }} <b>not a tag</b> &amp; -->", "<!--\n\ttabbed\n-->"}[g.r.Intn(6)])
 			case g.r.Intn(5) == 0:
 				in.WriteString("<br>")
 			case g.r.Intn(5) == 0:
